@@ -242,6 +242,7 @@ class SI:
     def __gt__(self, o): return self._c(o, lambda a, b: a > b)
     def __ge__(self, o): return self._c(o, lambda a, b: a >= b)
     def __int__(self): return self
+    def __bool__(self): return ENG.branch(self.e != 0)          # truthiness of an int: zero is falsy
     def __repr__(self): return f'SI({self.e})'
 
     def concrete(self, model): return model.eval(self.e, model_completion=True).as_long()
